@@ -76,6 +76,11 @@ func (c wkClass) pod(i int) world.PodSpec {
 			ns = "ns2"
 		}
 		return world.PodSpec{Name: "a-1", NS: ns, OwnerKind: "StatefulSet", OwnerName: "a", Policy: c.Policy}
+	case "stspfx":
+		// statefulset pods whose names (and therefore keys) are in a prefix relation: a-1 and a-10
+		return world.PodSpec{Name: []string{"a-1", "a-10"}[i%2], NS: "ns", OwnerKind: "StatefulSet", OwnerName: "a", Policy: c.Policy}
+	case "barepfx":
+		return world.PodSpec{Name: []string{"b-1", "b-10"}[i%2], NS: "ns", Policy: c.Policy}
 	case "stsmulti":
 		// statefulset pods requesting two IPs each (two single-address ranges of one pool of the two-pool topology)
 		r := `[["10.10.1.1"],["10.10.1.2"]]`
@@ -93,7 +98,7 @@ func (c wkClass) setWorkload(w *world.World, replicas int) {
 		// scale / delete-app act on ns/a; its namesake ns2/a keeps two replicas
 		w.SetStatefulSet("ns", "a", replicas)
 		w.SetStatefulSet("ns2", "a", 2)
-	case "sts", "stsmulti", "stspool":
+	case "sts", "stsmulti", "stspool", "stspfx":
 		w.SetStatefulSet("ns", "a", replicas)
 	case "dp", "dppool":
 		w.SetDeployment("ns", "d", replicas)
